@@ -568,6 +568,7 @@ class _Gen:
                 self._origin[(mod, n)] = (target, n)
                 self._origins.setdefault((mod, n), []).append((target, n))
             st = {'k': 'from', 'mod': target, 'level': level, 'rel': rel, 'names': '*', 'guard': None}
+            self._star_importers.setdefault(target, []).append(mod)
         self.edges.append((mod, target))
         for pf in prefixes:
             self.edges.append((mod, pf))
@@ -934,6 +935,8 @@ class _Gen:
         self.cns_vias: Dict[int, Dict[str, str]] = {}
         self.docassigned: set = set()
         self.reexport_direct: Dict[int, bool] = {}
+        self._star_importers: Dict[str, List[str]] = {}
+        self.loc_unsure: set = set()
         self.method_aliases: List[Tuple[str, str, int]] = []
         self.rng_rel = self.rng.sub('rel')
         self.layout()
@@ -964,6 +967,7 @@ class _Gen:
             'vias': {f'{a}:{b}': v for (a, b), v in self._vias.items() if v is not None},
             'origin': {f'{a}:{b}': list(v) for (a, b), v in self._origin.items()},
             'reexport_direct': {str(k): v for k, v in self.reexport_direct.items()},
+            'loc_unsure': sorted(self.loc_unsure),
             'cns_origin': {str(k): v for k, v in self.cns_origin.items()},
         }
         truth['cyclic'] = has_cycle(list(self.modules), truth['edges'])
@@ -983,10 +987,19 @@ class _Gen:
             target = rng.choice(reach) if reach and rng.chance(0.85) else rng.choice(later)
             ns = self.ns[mod]
             save_done = self.done
+            before = dict(ns)
             st = self.gen_import(rng, mod, target, ns, back_edge=True)
             if st is None:
                 continue
             st['back'] = True
+            if self._star_importers.get(mod) and self.modules[mod]['all'] is None:
+                # the names this statement binds now also travel through every `from mod import *` written earlier
+                # (the star importers were generated before the back edge existed): whether such an importer - which
+                # may list the name in __all__ - thereby re-exports the object is not recorded, so where these objects
+                # belong is not judged
+                for n, b in ns.items():
+                    if before.get(n) != b and b[0] == 'd' and not n.startswith('_'):
+                        self.loc_unsure.add(b[1])
             body = self.modules[mod]['body']
             pos = rng.below(len(body) + 1)
             if self.p.get('back_edge_bottom'):
